@@ -1,5 +1,5 @@
 (* C03 — incidence tables are exact transposes of one another. Statements only. *)
-From Verif Require Import Base C03 C03_proofs.
+From Verif Require Import Base C02 C03 C03_proofs C03_C02_proofs.
 
 (* edge_face row e = (first face listing e, last face listing e or padding); loop-order model *)
 Theorem C03_edge_face : forall fe npf n e,
@@ -66,3 +66,19 @@ Print Assumptions C03_face_face_row.
 Theorem C03_face_face_real : forall ef f g, In g (c03_neighbours ef f) -> g <> FILL.
 Proof. exact neighbours_real. Qed.
 Print Assumptions C03_face_face_real.
+
+(* whole pipeline from a standard-form face-node table (C02's derived tables feeding C03's builder):
+   face f is listed in edge_face_connectivity[e] iff the segment edge_node_connectivity[e] is one of
+   f's consecutive corner pairs *)
+Theorem C03_edge_face_iff_edge_of_face : forall m t e f, std_table m t -> (e < length (edges t))%nat ->
+  (In f (c03_occ (face_edges t m) (n_nodes_per_face t) e) <->
+   exists i r q, nth_error t i = Some r /\ f = Z.of_nat i /\ In q (cyc_pairs (corners r))
+                 /\ nth_error (edges t) e = Some (norm_pair q)).
+Proof. exact occ_geometric. Qed.
+Print Assumptions C03_edge_face_iff_edge_of_face.
+
+Theorem C03_edge_face_pipeline : forall m t e, std_table m t -> (e < length (edges t))%nat ->
+  nth e (c03_edge_faces (face_edges t m) (n_nodes_per_face t) (length (edges t))) (FILL, FILL)
+  = c03_row_of (c03_occ (face_edges t m) (n_nodes_per_face t) e).
+Proof. exact edge_face_of_table. Qed.
+Print Assumptions C03_edge_face_pipeline.
